@@ -18,8 +18,8 @@ REQUIRED = [
     "DaeVerif.C02.Props.ring_rewrite_injective",
     "DaeVerif.C02.Props.ring_disjoint_from_previous",
     "DaeVerif.C02.Props.ring_overlap_when_too_many",
-    "DaeVerif.C02.Props.routeK_pname_gap",
-    "DaeVerif.C02.Props.routeK_eq_userspace_without_H3_fails",
+    "DaeVerif.C02.Props.empty_pname_rule_agrees",
+    "DaeVerif.C02.Props.lan_pname_hypothesis_needed",
     "DaeVerif.C02.Props.lpm_key_same_set",
     "DaeVerif.C02.Props.domain_bit_same",
 ]
@@ -312,25 +312,26 @@ def run(ctx):
     for v in gv[:5]:
         ctx.report("control-plane inconsistency: " + v[:500], {"detail": v[:4000], "replay": replay_cmd})
 
-    # ---- finding #6 replay (pname('') with an unknown process on WAN)
+    # ---- regression replay of former finding #6 (pname('') with an unknown process on WAN; repaired by
+    # C02.fix1: the kernel now tests pname[0] != 0 like userspace). A revert must be a violation.
     f6 = {"parsed": read_lines(os.path.join(ctx.out, "c02f6.note"))[:1]}
     fops, fmerged, fmodel, fneq = run_stream(ctx, "c02f6", cdrv)
     if fmerged:
         fm = ctx.diff_streams(os.path.join(ctx.out, "c02f6.ops"), os.path.join(ctx.out, "c02f6.merged"),
                               os.path.join(ctx.out, "c02f6.model"), "c02f6")
+        for op, line in fneq[:3]:
+            ctx.report("kernel route() and userspace Match disagree on the empty-process-name replay (rule pname('') , WAN packet of an "
+                       f"unknown process: kernel must not match the all-zero name): `{line}`",
+                       {"stream": "c02f6", "program": "routing { pname('') -> block; fallback: direct }", "op": op, "impl": line,
+                        "replay": replay_cmd})
         for ln, op, im, mo in fm[:5]:
-            ctx.report(f"finding-6 replay: implementation differs from model at line {ln}: impl `{im[:200]}` model `{mo[:200]}`",
+            ctx.report(f"empty-process-name replay: implementation differs from model at line {ln}: impl `{im[:200]}` model `{mo[:200]}`",
                        {"stream": "c02f6", "line": ln, "op": op[:2000], "impl": im, "model": mo})
         f6["packets"] = [m for o, m in zip(fops, fmerged) if o.startswith("pkt ")]
-        f6["reproduced_on_real_code"] = bool(fneq)
-        if fneq:
-            what = ("rule pname('') with an unknown process on WAN: kernel route() matches it (is_wan && equal16 of 16 zero bytes), "
-                    "userspace Match does not (processName[0] != 0): " + fneq[0][1])
-            if any(k.get("kind") == "open" and k.get("key") == "c02-empty-pname-wan-unknown-process" for k in ctx.known):
-                ctx.report(what, {"op": fneq[0][0], "impl": fneq[0][1]}, key="c02-empty-pname-wan-unknown-process")
-            else:
-                ctx.say("NOTE property=C02 (degenerate, outside the property's quantifier: WAN packets carry a process name) " + what)
-    ctx.cov["finding6_replay"] = f6
+        f6["kernel_and_userspace_agree"] = not fneq
+    if f6["parsed"] != ["ok"] or len(f6.get("packets", [])) != 3:
+        ctx.report("empty-process-name replay did not run (program rejected or packets missing): " + str(f6), f6, no_input=True)
+    ctx.cov["empty_pname_replay"] = f6
 
     pk = [(o, m) for o, m in zip(ops, merged) if o.startswith("pkt ")]
     stats = json.load(open(os.path.join(ctx.out, "c02.stats.json")))
